@@ -245,7 +245,17 @@ impl<'a> Token<'a> {
         match self.num_parts() {
             0 => unreachable!(),
             1 => Err(ParsingError::missing_param(self, "repeat.<num_repetitions>")),
-            2 => parse_param_with_constant_lookup::<u32>(self, 1, constants),
+            2 => {
+                let times = parse_param_with_constant_lookup::<u32>(self, 1, constants)?;
+                if times == 0 {
+                    return Err(ParsingError::invalid_param_with_reason(
+                        self,
+                        1,
+                        "the number of repetitions must be greater than 0",
+                    ));
+                }
+                Ok(times)
+            }
             _ => Err(ParsingError::extra_param(self)),
         }
     }
